@@ -254,6 +254,8 @@ fn bases() -> Vec<Ty> {
         // enums
         enm(None, false, vec![unit_variant("A", None), tuple_variant("B", &[p(Prim::U8)], None)]),
         enm(Some(IntRepr::U8), true, vec![tuple_variant("A", &[p(Prim::U8)], None), named_variant("B", &[p(Prim::U8)], None)]),
+        // the boundary of the implicit one-byte variant index: 255 variants, then a 256th is appended
+        enm(None, false, (0..255).map(|i| if i == 254 { tuple_variant("V254", &[p(Prim::U8)], None) } else { unit_variant(&format!("V{}", i), None) }).collect()),
     ]
 }
 
@@ -283,8 +285,12 @@ fn full_alphabet(ty: &Ty) -> Vec<Edit> {
         DefKind::Enum(en) => {
             out.push(Edit::AppendVariant { tuple: false });
             out.push(Edit::AppendVariant { tuple: true });
-            for v in 0..en.variants.len() {
-                out.push(Edit::AddFieldToVariant { variant: v });
+            let n = en.variants.len();
+            for v in 0..n {
+                // big enums: the first two and the last variant
+                if n <= 8 || v < 2 || v + 1 == n {
+                    out.push(Edit::AddFieldToVariant { variant: v });
+                }
             }
         }
     }
